@@ -260,6 +260,10 @@ def from_element(el, **inherited_attrib):
         for f in dataclasses.fields(data_type)
         if attrs.get(_attr_name(f.name), "").strip()
     }
+    # opacity values outside [0, 1] are clamped to it (as is done for groups)
+    for name in ("opacity", "fill_opacity", "stroke_opacity"):
+        if name in args:
+            args[name] = _clamp(args[name])
     return data_type(**args)
 
 
